@@ -170,6 +170,20 @@ CLAIMS['C20'] = dict(
          'constructor-created state fresh and deep-copyable. Trace equality itself is a property of histories and is not decided.',
     note='Trusted: CPython ast; absence of exec/eval/setattr in the package.')
 
+CLAIMS['C18'] = dict(
+    category='other', design_ref='DESIGN.md section 4 (C18), Appendix A.12',
+    technique='exception-escape / error-discipline analysis: None-test dominance, exact decode-path host errors from the '
+              'decode model, constructor binding, attribute definedness, flow-sensitive definite assignment with if/elif '
+              'exhaustiveness from the table domain and the decode field sets, interval analysis of helper assertions and '
+              'register indices, raise-class and division-site inventories, width obligations against struct.error',
+    text='Every enumerated kind of host-error site reachable from a step is discharged: None results are tested before use; '
+         'no decoder / from_bitarray path can raise a host error for any word; constructor calls bind; attributes exist; no '
+         'local is read before assignment; helper assertions, register-index assertions and the banking lookup cannot fail for '
+         'any operand / accepted field combination; only architectural exceptions or NotImplementedError are raised; values '
+         'stay in range for struct.pack. Errors that need numeric coincidences outside these domains are not decided.',
+    note='Trusted: CPython ast; the decode model and field sets (sa/decode.py, sa/fields.py); configuration validity; '
+         'DRegion <= number_of_mpu_regions.')
+
 PENDING = 'checker not armed yet in this session (under construction); nothing is claimed for it until its rules run clean'
 
 checks = []
